@@ -2,6 +2,7 @@
 # runs every claimed check (quick by default) on the current /repo tree; prints one summary line per property
 cd "$(dirname "$0")/.."
 TIER=${1:-quick}
+[ -x .venv/bin/python ] || ./setup.sh >/dev/null 2>&1
 for p in $(.venv/bin/python -c "import json; print(' '.join(c['property_id'] for c in json.load(open('MANIFEST.json'))['checks']))"); do
   ./check $p --tier $TIER > /tmp/runall_$p.log 2>&1; rc=$?
   echo "$p exit=$rc $(tail -1 /tmp/runall_$p.log | cut -c1-160)"
